@@ -30,13 +30,18 @@ RECIPES = {
 }
 
 
+# fields that are logged for the reader of a replay file and deliberately not bound by the trace specs (the properties say
+# nothing about them): corrupting them must NOT lead to a rejection, so they are no test of the binding
+INFORMATIONAL = {"str"}
+
+
 def corrupt_field(trace):
     """flip / alter the last observable scalar in the last event that has one"""
     t = copy.deepcopy(trace)
     for ev in reversed(t[1:]):
         for k in sorted(ev, reverse=True):
             v = ev[k]
-            if k == "e":
+            if k == "e" or k in INFORMATIONAL:
                 continue
             if isinstance(v, bool):
                 ev[k] = not v
